@@ -202,7 +202,10 @@ def run_case(case):
                         viol("numba-kernel-out-of-declared-or-contract-extent", f"{itype}/{sid} entities {ents}: {e}; declared carray sizes {stub.declared[n0:n0 + 6]}; contract extents {H.contract_extents(orc, itype)}")
                         continue
                     except Exception as e:
-                        viol("numba-kernel-raises", f"{itype}/{sid}: {type(e).__name__}: {str(e)[:140]}")
+                        if isinstance(e, NameError) and "scipy" in str(e) and "scipy.special." in text:
+                            viol("numba-bessel-emits-bare-scipy-name", f"{itype}/{sid}: Bessel function printed as a bare 'scipy.special.jn/yn' (no import, no arguments): {e}")
+                        else:
+                            viol("numba-kernel-raises", f"{itype}/{sid}: {type(e).__name__}: {str(e)[:140]}")
                         continue
                     err = float(np.max(np.abs(A_n.reshape(shape).astype(wide) - A_c.astype(wide)))) / max(float(np.max(np.abs(A_c))), 1e-300)
                     if err > 5e4 * H.EPS[scalar]:
@@ -302,6 +305,7 @@ def cases_for(tier, s):
     pool += ex[::5] if tier == "quick" else ex
     pool += [{"recipe": {"b": "all_types", "cell": "triangle"}}, {"recipe": {"b": "dispatch", "cell": "triangle", "p": {"seed": [s, 18, 1], "nint": 5, "nforms": 2}}},
              {"recipe": {"b": "packing", "cell": "triangle", "p": {"seed": [s, 18, 2]}}}, {"recipe": {"b": "facet_plain", "cell": "prism"}},
+             {"recipe": {"b": "bessel", "cell": "triangle", "p": {"kind": "J"}}}, {"recipe": {"b": "bessel", "cell": "interval", "p": {"kind": "Y", "nu": 2}}},
              {"recipe": {"b": "tp_mass_stiff", "cell": "quadrilateral", "tpmesh": True, "p": {"degree": 2}}, "options": {"sum_factorization": True}},
              {"recipe": {"b": "mass", "cell": "triangle", "p": {"degree": 2}}, "options": {"part": "diagonal"}}]
     for i, c in enumerate(pool):
